@@ -3,6 +3,7 @@ package c14
 import (
 	"fmt"
 	"reflect"
+	"runtime"
 	"sort"
 	"strings"
 	"testing"
@@ -321,8 +322,16 @@ func runCase(c Case) (res pbt.Result) {
 			return
 		}
 		defer b.Stop()
-		for _, r := range all {
+		for i, r := range all {
 			b.Emit(copyRow(r))
+			if i < len(c.Pace) {
+				switch c.Pace[i] {
+				case 1:
+					runtime.Gosched()
+				case 2:
+					time.Sleep(100 * time.Microsecond)
+				}
+			}
 		}
 		if barrierExact {
 			b.WaitFor(pbt.Wait(8*time.Second), func(ds []run.Delivery) bool {
@@ -662,6 +671,9 @@ func classes(c Case, res *pbt.Result, exact bool) {
 	if missingArgument(c) {
 		res.Class("missing-argument-column")
 	}
+	if len(c.Pace) > 0 {
+		res.Class("async-paced")
+	}
 }
 
 // plusChainCol: the output column belongs to a '+'-only wrapper some of whose calls can be NULL.
@@ -753,6 +765,8 @@ var spec = pbt.Spec[Case]{
 		"asynchronous barrier: a sentinel tail in its own partition whose last row passed on the synchronous path; otherwise expected count + 3 ms settle",
 		"which rows pass an analytic-free WHERE is taken from the engine (predicate evaluation is C06's subject)",
 		"acc_*(v,start,reset): a row on which start and reset both hold is not pinned down by the comments; the reference stops comparing that item's partition from there",
+		"reference details taken from the repository's tests/comments: WHEN false before any result gives NULL; acc_sum/acc_count of nothing are 0, acc_avg/min/max NULL; lag with ignoreNull=false stores and returns NULLs; a column default of lag is read from the current row; coalesce/CASE wrappers see NULL (ELSE branch), arithmetic wrappers propagate NULL",
+		"a missing value column is NULL for the reference (the engine's deviation is finding F-ANALYTIC-MISSING-ARG)",
 	},
 	Gen:      genCase,
 	Run:      runCase,
